@@ -262,7 +262,12 @@ func verifFreeStyle(tag string, mode int) Style {
 	}
 	if mode == 2 {
 		// one colour channel at a time
-		c := verifRenderColours[zzverif.Choose(tag+".colour", len(verifRenderColours))]
+		var c Color
+		if k := zzverif.Choose(tag+".colour", len(verifRenderColours)+1); k < len(verifRenderColours) {
+			c = verifRenderColours[k]
+		} else {
+			c = IndexColor(zzverif.Uint8(tag + ".index")) // any palette index
+		}
 		switch zzverif.Param("chan") {
 		case 0:
 			st.Foreground = c
